@@ -805,6 +805,360 @@ fn run_hist(w: &[&str], ctx: &mut Ctx) -> String {
     observe(&cs, final_peers, &kss, &cfg, &rq, tbl, samples, tablet_expect, ctx)
 }
 
+
+// ---------------------------------------------------------------------------------------------
+// refill cases: a scripted ScyllaDB-like node (it decides the shard of every connection, closes connections, restarts
+// with other sharding parameters) against a real NodeConnectionPool + refiller
+
+mod scripted {
+    use crate::mocknode::{OP_OPTIONS, OP_QUERY, OP_REGISTER, OP_STARTUP, Parsed, RESP_READY, RESP_RESULT, RESP_SUPPORTED, body_supported_ext, body_void, frame, parse_request};
+    use std::collections::{HashMap, VecDeque};
+    use std::net::SocketAddr;
+    use std::sync::{Arc, Mutex};
+    use std::time::Duration;
+    use tokio::io::{AsyncReadExt, AsyncWriteExt};
+    use tokio::net::{TcpListener, TcpStream};
+    use tokio::sync::Notify;
+
+    pub struct ConnRec {
+        /// what SUPPORTED told this connection: (shard, nr_shards, msb_ignore)
+        pub info: Option<(u16, u16, u8)>,
+        pub alive: bool,
+        pub ready: bool,
+        close: Arc<Notify>,
+    }
+
+    #[derive(Default)]
+    pub struct St {
+        /// sharding parameters of the node (None: a node without shards)
+        pub params: Option<(u16, u8)>,
+        /// shards for the next connections on the ordinary port
+        pub queue: VecDeque<u16>,
+        /// connections on the shard-aware port land on (source port + shift) % nr_shards
+        pub shift: u16,
+        pub conns: Vec<ConnRec>,
+        /// `r<id>:<shard>/<nr>/<msb>[q]` (READY sent; q = came through the shard-aware port), `b<id>` (closed by the node)
+        pub events: Vec<String>,
+        pub queries: HashMap<String, usize>,
+        pub setups_in_flight: usize,
+    }
+
+    pub struct Server {
+        pub addr: SocketAddr,
+        pub st: Arc<Mutex<St>>,
+        tasks: Vec<tokio::task::JoinHandle<()>>,
+    }
+
+    impl Drop for Server {
+        fn drop(&mut self) {
+            for t in &self.tasks {
+                t.abort();
+            }
+        }
+    }
+
+    async fn read_frame(sock: &mut TcpStream) -> Option<(i16, u8, Vec<u8>)> {
+        let mut hdr = [0u8; 9];
+        sock.read_exact(&mut hdr).await.ok()?;
+        let len = u32::from_be_bytes([hdr[5], hdr[6], hdr[7], hdr[8]]) as usize;
+        let mut body = vec![0u8; len];
+        sock.read_exact(&mut body).await.ok()?;
+        Some((i16::from_be_bytes([hdr[2], hdr[3]]), hdr[4], body))
+    }
+
+    impl Server {
+        pub async fn start(params: Option<(u16, u8)>) -> Server {
+            let plain = TcpListener::bind("127.0.0.1:0").await.unwrap();
+            let aware = TcpListener::bind("127.0.0.1:0").await.unwrap();
+            let addr = plain.local_addr().unwrap();
+            let aware_port = aware.local_addr().unwrap().port();
+            let st = Arc::new(Mutex::new(St { params, ..Default::default() }));
+            // connection set-ups complete one at a time, so that the order of READY is the order the refiller sees
+            let setup = Arc::new(tokio::sync::Mutex::new(()));
+            let mut tasks = Vec::new();
+            for (listener, is_aware) in [(plain, false), (aware, true)] {
+                let st = Arc::clone(&st);
+                let setup = Arc::clone(&setup);
+                tasks.push(tokio::spawn(async move {
+                    loop {
+                        let Ok((sock, peer)) = listener.accept().await else { return };
+                        let close = Arc::new(Notify::new());
+                        let (id, info) = {
+                            let mut g = st.lock().unwrap();
+                            let info = g.params.map(|(nr, msb)| {
+                                let shard = if is_aware {
+                                    ((peer.port() as u32 + g.shift as u32) % nr as u32) as u16
+                                } else if let Some(s) = g.queue.pop_front().filter(|s| *s < nr) {
+                                    s
+                                } else {
+                                    // the least loaded shard, lowest number first (what ScyllaDB does on the ordinary port)
+                                    (0..nr)
+                                        .min_by_key(|s| g.conns.iter().filter(|c| c.alive && c.info == Some((*s, nr, msb))).count())
+                                        .unwrap_or(0)
+                                };
+                                (shard, nr, msb)
+                            });
+                            g.conns.push(ConnRec { info, alive: true, ready: false, close: Arc::clone(&close) });
+                            g.setups_in_flight += 1;
+                            (g.conns.len() - 1, info)
+                        };
+                        let st = Arc::clone(&st);
+                        let setup = Arc::clone(&setup);
+                        tokio::spawn(conn_task(sock, id, info, is_aware, aware_port, st, setup, close));
+                    }
+                }));
+            }
+            Server { addr, st, tasks }
+        }
+
+        /// The node restarts with these sharding parameters: every connection is closed (in accept order).
+        pub async fn restart(&self, params: Option<(u16, u8)>) {
+            let closers: Vec<Arc<Notify>> = {
+                let mut g = self.st.lock().unwrap();
+                g.params = params;
+                g.queue.clear();
+                g.conns.iter().filter(|c| c.alive).map(|c| Arc::clone(&c.close)).collect()
+            };
+            for c in closers {
+                c.notify_one();
+                tokio::time::sleep(Duration::from_millis(1)).await;
+            }
+        }
+    }
+
+    #[allow(clippy::too_many_arguments)]
+    async fn conn_task(
+        mut sock: TcpStream,
+        id: usize,
+        info: Option<(u16, u16, u8)>,
+        is_aware: bool,
+        aware_port: u16,
+        st: Arc<Mutex<St>>,
+        setup: Arc<tokio::sync::Mutex<()>>,
+        close: Arc<Notify>,
+    ) {
+        let gone = |st: &Arc<Mutex<St>>, by_node: bool| {
+            let mut g = st.lock().unwrap();
+            if by_node && g.conns[id].alive {
+                g.events.push(format!("b{}", id));
+            }
+            if !g.conns[id].ready && g.conns[id].alive {
+                g.setups_in_flight -= 1;
+            }
+            g.conns[id].alive = false;
+        };
+        loop {
+            let fr = tokio::select! {
+                _ = close.notified() => { gone(&st, true); return; }
+                fr = read_frame(&mut sock) => fr,
+            };
+            let Some((stream, opcode, body)) = fr else {
+                gone(&st, false);
+                return;
+            };
+            match opcode {
+                OP_OPTIONS => {
+                    let b = body_supported_ext(false, info, info.map(|_| aware_port));
+                    if sock.write_all(&frame(stream, RESP_SUPPORTED, &b)).await.is_err() {
+                        gone(&st, false);
+                        return;
+                    }
+                }
+                OP_STARTUP => {
+                    let _turn = setup.lock().await;
+                    if sock.write_all(&frame(stream, RESP_READY, &[])).await.is_err() {
+                        gone(&st, false);
+                        return;
+                    }
+                    {
+                        let mut g = st.lock().unwrap();
+                        let what = match info {
+                            Some((s, n, m)) => format!("{}/{}/{}", s, n, m),
+                            None => "-".to_owned(),
+                        };
+                        g.events.push(format!("r{}:{}{}", id, what, if is_aware { "q" } else { "" }));
+                        g.conns[id].ready = true;
+                        g.setups_in_flight -= 1;
+                    }
+                    tokio::time::sleep(Duration::from_millis(3)).await;
+                }
+                OP_REGISTER => {
+                    let _ = sock.write_all(&frame(stream, RESP_READY, &[])).await;
+                }
+                OP_QUERY => {
+                    let text = match parse_request(opcode, &body, false) {
+                        Parsed::Query { text, .. } => text,
+                        _ => String::new(),
+                    };
+                    st.lock().unwrap().queries.insert(text.clone(), id);
+                    if text.starts_with("CLOSE") {
+                        gone(&st, true);
+                        return;
+                    }
+                    if sock.write_all(&frame(stream, RESP_RESULT, &body_void())).await.is_err() {
+                        gone(&st, false);
+                        return;
+                    }
+                }
+                _ => {
+                    gone(&st, false);
+                    return;
+                }
+            }
+        }
+    }
+}
+
+#[derive(Clone, Debug)]
+enum RStep {
+    Restart(Option<(u16, u8)>),
+    Params(Option<(u16, u8)>),
+    Assign(Vec<u16>),
+    Shift(u16),
+    Close(u32),
+    Wait,
+}
+
+fn parse_params(s: &str) -> Option<Option<(u16, u8)>> {
+    let (nr, msb) = s.split_once('.')?;
+    let (nr, msb): (u32, u32) = (nr.parse().ok()?, msb.parse().ok()?);
+    if nr > 64 || msb >= 64 {
+        return None;
+    }
+    Some(if nr == 0 { None } else { Some((nr as u16, msb as u8)) })
+}
+
+fn parse_rscript(s: &str) -> Option<Vec<RStep>> {
+    let steps: Vec<RStep> = s
+        .split(';')
+        .map(|st| {
+            let (k, rest) = (st.get(..1)?, st.get(1..)?);
+            match k {
+                "N" => parse_params(rest).map(RStep::Restart),
+                "P" => parse_params(rest).map(RStep::Params),
+                "A" => rest.split(',').map(|x| x.parse::<u16>().ok()).collect::<Option<Vec<u16>>>().map(RStep::Assign),
+                "M" => rest.parse::<u16>().ok().filter(|d| *d < 64).map(RStep::Shift),
+                "C" => rest.parse::<u32>().ok().filter(|d| *d < 64).map(RStep::Close),
+                "W" if rest.is_empty() => Some(RStep::Wait),
+                _ => None,
+            }
+        })
+        .collect::<Option<Vec<_>>>()?;
+    // the script starts the node and ends with a look at the pool
+    if !matches!(steps.first(), Some(RStep::Restart(_))) || !matches!(steps.last(), Some(RStep::Wait)) {
+        return None;
+    }
+    Some(steps)
+}
+
+async fn run_refill(per_shard: bool, k: usize, port_ok: bool, steps: &[RStep], ctx: &mut Ctx) -> String {
+    let Some(RStep::Restart(p0)) = steps.first().cloned() else { return "bad-case".into() };
+    let srv = scripted::Server::start(p0).await;
+    let size = if per_shard { PoolSize::PerShard(NonZeroUsize::new(k).unwrap()) } else { PoolSize::PerHost(NonZeroUsize::new(k).unwrap()) };
+    let Ok(pool) = VerifPool::new(srv.addr, size, None, port_ok, None) else {
+        return "bad-case".into();
+    };
+    pool.wait_until_initialized().await;
+    let mut out: Vec<String> = Vec::new();
+    let mut tag = 0u64;
+    let count = |pool: &VerifPool| pool.connection_count().unwrap_or(0);
+    for step in &steps[1..] {
+        match step {
+            RStep::Restart(p) => {
+                srv.restart(*p).await;
+                // until the pool has noticed that everything is gone
+                let t0 = std::time::Instant::now();
+                while count(&pool) != 0 && t0.elapsed() < Duration::from_millis(800) {
+                    tokio::time::sleep(Duration::from_millis(2)).await;
+                }
+            }
+            RStep::Params(p) => {
+                let mut g = srv.st.lock().unwrap();
+                g.params = *p;
+                g.queue.clear();
+            }
+            RStep::Assign(v) => srv.st.lock().unwrap().queue.extend(v.iter().copied()),
+            RStep::Shift(d) => srv.st.lock().unwrap().shift = *d,
+            RStep::Close(shard) => {
+                let before = count(&pool);
+                tag += 1;
+                let _ = pool.query_on_shard(*shard, &format!("CLOSE {}", tag)).await;
+                let t0 = std::time::Instant::now();
+                while count(&pool) == before && before != 0 && t0.elapsed() < Duration::from_millis(800) {
+                    tokio::time::sleep(Duration::from_millis(2)).await;
+                }
+            }
+            RStep::Wait => {
+                let params = srv.st.lock().unwrap().params;
+                let target = match params {
+                    Some((nr, _)) if per_shard => nr as usize * k,
+                    _ => k,
+                };
+                // settle: the pool is full, no set-up is in flight, and three looks 5 ms apart agree
+                let t0 = std::time::Instant::now();
+                let mut stable = 0;
+                let mut last = usize::MAX;
+                while t0.elapsed() < Duration::from_millis(3000) {
+                    let c = count(&pool);
+                    let inflight = srv.st.lock().unwrap().setups_in_flight;
+                    // (the pool must also have adopted the node's current sharding parameters)
+                    if c == target && inflight == 0 && c == last && pool.nr_shards() == params.map(|p| p.0) {
+                        stable += 1;
+                        if stable >= 3 {
+                            break;
+                        }
+                    } else {
+                        stable = 0;
+                    }
+                    last = c;
+                    tokio::time::sleep(Duration::from_millis(5)).await;
+                }
+                let c = count(&pool);
+                let nr = pool.nr_shards();
+                // events up to here, then the look
+                out.extend(srv.st.lock().unwrap().events.drain(..));
+                let mut items: Vec<String> = vec![format!("cnt={}", c), format!("nr={}", nr.map(|x| x.to_string()).unwrap_or_else(|| "-".into()))];
+                let top = params.map(|p| p.0 as u32).unwrap_or(1);
+                for s in 0..=top {
+                    tag += 1;
+                    let text = format!("SELECT {} FROM verif.refill", tag);
+                    match pool.query_on_shard(s, &text).await {
+                        Ok((reported, true)) => {
+                            let conn = srv.st.lock().unwrap().queries.get(&text).copied();
+                            let Some(conn) = conn else {
+                                items.push(format!("{}:fail", s));
+                                continue;
+                            };
+                            let server_side = srv.st.lock().unwrap().conns[conn].info;
+                            if reported != server_side.map(|i| i.0) {
+                                ctx.fail(format!(
+                                    "pool filing: the connection that carried the query for shard {} is believed to be on shard {:?}, the node put it on {:?}",
+                                    s, reported, server_side
+                                ));
+                            }
+                            if per_shard && c == target && nr == params.map(|p| p.0) && params.is_some() && s < top && server_side.map(|i| i.0 as u32) != Some(s) {
+                                ctx.fail(format!(
+                                    "the pool is full ({} connections, {} per shard) but the query for shard {} travelled on a connection the node bound to shard {:?}",
+                                    c, k, s, server_side.map(|i| i.0)
+                                ));
+                            }
+                            items.push(format!("{}:{}:{}", s, conn, reported.map(|x| x.to_string()).unwrap_or_else(|| "-".into())));
+                        }
+                        _ => items.push(format!("{}:fail", s)),
+                    }
+                }
+                // a pool that moved while it was looked at tells nothing
+                if count(&pool) != c || !srv.st.lock().unwrap().events.is_empty() {
+                    ctx.oracle_failures.clear();
+                    return "unstable-pool".into();
+                }
+                out.push(format!("D[{}]", items.join(",")));
+            }
+        }
+    }
+    out.join(" ")
+}
+
 // ---------------------------------------------------------------------------------------------
 // pool / route cases
 
@@ -971,6 +1325,28 @@ pub fn run(case: &str, ctx: &mut Ctx) -> String {
     match (kind, w.len()) {
         ("plan", 8) => run_plan(&w, ctx),
         ("hist", 8) => run_hist(&w, ctx),
+        ("refill", 4) => {
+            let (Some((per_shard, k)), Some(steps)) = (parse_size(w[1]), parse_rscript(w[3])) else {
+                return "bad-case".into();
+            };
+            let port_ok = match w[2] {
+                "p" => true,
+                "n" => false,
+                _ => return "bad-case".into(),
+            };
+            if k > 4 {
+                return "bad-case".into();
+            }
+            let mut out = String::new();
+            for _ in 0..4 {
+                let rt = tokio::runtime::Builder::new_current_thread().enable_all().build().unwrap();
+                out = rt.block_on(run_refill(per_shard, k, port_ok, &steps, ctx));
+                if out != "unstable-pool" {
+                    break;
+                }
+            }
+            out
+        }
         ("pool", 6) | ("route", 6) => {
             let route = kind == "route";
             let (Ok(n), Ok(msb), Some((per_shard, k))) = (w[1].parse::<u16>(), w[2].parse::<u8>(), parse_size(w[3])) else {
